@@ -1,6 +1,1019 @@
-//! C13 — not built yet.
-use crate::rt::*;
+//! C13 — parameter validation is sound; the modulus chain is well-formed and reproducible.
+//!
+//! Workloads
+//!   universe   exhaustive small universe through the public builder (see `Universe`)
+//!   random     random larger configurations (1..64 moduli, realistic sizes, compliant / over budget)
+//!   secbound   every (degree, level) of the security table at max-1 / max / max+1 total bits
+//!   generators CoeffModulus::create / create_with_plain_modulus, PlainModulus::batching(_multiple),
+//!              CoeffModulus::bfv_default, CoeffModulus::max_bit_count, Modulus::new refusals
+//!
+//! Oracles (all written from the property text; nothing from heathcliff::util is used):
+//!   * HeContext::new never panics on a constructible parameter object;
+//!   * accepted  => the independent predicate `level_verdict` holds for every level of the chain;
+//!   * rejected  => the error is a documented specific code whose documented meaning is TRUE of
+//!                  the input (so a compliant input can never be rejected);
+//!   * chain structure, constants (BigU), qualifier flags, parameter ids (reference SHA-256),
+//!     agreement of two independently built contexts, global id collision check;
+//!   * generated moduli: distinct, exact sizes, = 1 mod 2N, prime by refm::is_prime.
 
-pub fn run(_cfg: &Cfg, _rep: &mut Report) -> PropMeta {
-    PropMeta { id: "C13", level: "exploration", rule: "not built", assumptions: vec![], exhaustive: false, floor: 1 }
+use crate::big::BigU;
+use crate::refm;
+use crate::rt::*;
+use heathcliff::{CoeffModulus, ContextData, EncryptionParameters, HeContext, Modulus, PlainModulus, SchemeType, SecurityLevel};
+use serde_json::{json, Value};
+use sha2::{Digest, Sha256};
+use std::collections::HashMap;
+use std::sync::{Arc, Mutex};
+
+const P: &str = "C13";
+
+// ------------------------------------------------------------------------------------------
+// Reference data transcribed by hand from the HomomorphicEncryption.org security standard
+// (ternary secret, classical attacks): largest log2(q) for N = 1024 .. 32768.
+// (Compared against the library's own table only through the library's observable behaviour.)
+const STD_DEGREES: [usize; 6] = [1024, 2048, 4096, 8192, 16384, 32768];
+const STD_128: [usize; 6] = [27, 54, 109, 218, 438, 881];
+const STD_192: [usize; 6] = [19, 37, 75, 152, 305, 611];
+const STD_256: [usize; 6] = [14, 29, 58, 118, 237, 476];
+
+/// None = no limit (security level none); Some(0) = degree not in the standard.
+fn std_max_bits(n: usize, sec: SecurityLevel) -> Option<usize> {
+    let tab = match sec { SecurityLevel::None => return None, SecurityLevel::Tc128 => &STD_128, SecurityLevel::Tc192 => &STD_192, SecurityLevel::Tc256 => &STD_256 };
+    Some(STD_DEGREES.iter().position(|&d| d == n).map(|i| tab[i]).unwrap_or(0))
+}
+
+const DEGREE_MIN: usize = 2;
+const DEGREE_MAX: usize = 1 << 17;
+const DOCUMENTED_ERRORS: [&str; 14] = [
+    "InvalidScheme", "InvalidCoeffModulusSize", "InvalidCoeffModulusBitCount", "InvalidCoeffModulusNoNTT",
+    "InvalidPolyModulusDegree", "InvalidPolyModulusDegreeNonPowerOfTwo", "InvalidParametersTooLarge",
+    "InvalidParametersInsecure", "FailedCreatingRNSBase", "InvalidPlainModulusBitCount",
+    "InvalidPlainModulusCoprimality", "InvalidPlainModulusTooLarge", "InvalidPlainModulusNonzero", "FailedCreatingRNSTool",
+];
+
+const SCHEMES: [SchemeType; 4] = [SchemeType::None, SchemeType::BFV, SchemeType::CKKS, SchemeType::BGV];
+const SECS: [SecurityLevel; 4] = [SecurityLevel::None, SecurityLevel::Tc128, SecurityLevel::Tc192, SecurityLevel::Tc256];
+
+fn scheme_word(s: SchemeType) -> u64 { match s { SchemeType::None => 0, SchemeType::BFV => 1, SchemeType::CKKS => 2, SchemeType::BGV => 3 } }
+fn scheme_name(s: SchemeType) -> &'static str { match s { SchemeType::None => "none", SchemeType::BFV => "bfv", SchemeType::CKKS => "ckks", SchemeType::BGV => "bgv" } }
+fn sec_name(s: SecurityLevel) -> &'static str { match s { SecurityLevel::None => "none", SecurityLevel::Tc128 => "tc128", SecurityLevel::Tc192 => "tc192", SecurityLevel::Tc256 => "tc256" } }
+fn is_bfv_like(s: SchemeType) -> bool { matches!(s, SchemeType::BFV | SchemeType::BGV) }
+fn idhex(id: &[u64; 4]) -> String { format!("{:016x}{:016x}{:016x}{:016x}", id[0], id[1], id[2], id[3]) }
+
+/// Reference parameter id: SHA-256 over the little-endian u64 words [scheme, N, q_1..q_k, t],
+/// digest read back as four little-endian u64.
+fn sha_id(scheme: SchemeType, n: usize, qs: &[u64], t: u64) -> [u64; 4] {
+    let mut h = Sha256::new();
+    h.update(scheme_word(scheme).to_le_bytes());
+    h.update((n as u64).to_le_bytes());
+    for q in qs { h.update(q.to_le_bytes()); }
+    h.update(t.to_le_bytes());
+    let out = h.finalize();
+    let mut r = [0u64; 4];
+    for i in 0..4 { let mut b = [0u8; 8]; b.copy_from_slice(&out[8 * i..8 * i + 8]); r[i] = u64::from_le_bytes(b); }
+    r
+}
+
+// ------------------------------------------------------------------------------------------ number theory helpers
+/// distinct prime factors (Pollard rho with u128 arithmetic, deterministic)
+fn factor(n: u64) -> Vec<u64> {
+    fn rho(n: u64) -> u64 {
+        if n % 2 == 0 { return 2; }
+        let mut c = 1u64;
+        loop {
+            let f = |x: u64| ((x as u128 * x as u128 + c as u128) % n as u128) as u64;
+            let (mut x, mut y, mut d) = (2u64, 2u64, 1u64);
+            while d == 1 { x = f(x); y = f(f(y)); d = refm::gcd(x.abs_diff(y), n); }
+            if d != n { return d; }
+            c += 1;
+        }
+    }
+    fn rec(n: u64, out: &mut Vec<u64>) {
+        if n < 2 { return; }
+        if refm::is_prime(n) { if !out.contains(&n) { out.push(n); } return; }
+        let d = rho(n);
+        rec(d, out); rec(n / d, out);
+    }
+    let mut out = vec![];
+    let mut m = n;
+    if m < 2 { return out; }
+    for p in [2u64, 3, 5, 7, 11, 13, 17, 19, 23, 29, 31, 37, 41, 43, 47] {
+        if m % p == 0 { out.push(p); while m % p == 0 { m /= p; } }
+    }
+    rec(m, &mut out);
+    out.sort();
+    out
+}
+
+#[derive(Clone, Debug)]
+struct ValInfo { bits: usize, prime: bool, factors: Vec<u64> }
+fn val_info(v: u64) -> ValInfo { ValInfo { bits: refm::bit_len(v), prime: refm::is_prime(v), factors: factor(v) } }
+type Infos = HashMap<u64, ValInfo>;
+
+/// primes p = 1 (mod m) with exactly `bits` bits, largest first
+fn primes_down(m: u64, bits: u32, count: usize) -> Vec<u64> {
+    let mut out = vec![];
+    if bits < 2 || bits > 62 || m == 0 || count == 0 { return out; }
+    let top = (1u64 << bits) - 1; let lo = 1u64 << (bits - 1);
+    let mut v = top / m * m + 1;
+    while v > top { if v < m { return out; } v -= m; }
+    while v >= lo {
+        if refm::is_prime(v) { out.push(v); if out.len() == count { break; } }
+        if v < m { break; }
+        v -= m;
+    }
+    out
+}
+/// number of primes = 1 mod m with exactly `bits` bits (None if the range is too large to enumerate)
+fn count_primes(m: u64, bits: u32, cap: usize) -> Option<usize> {
+    if bits < 2 || bits > 60 { return Some(0); }
+    let top = (1u64 << bits) - 1;
+    if top / m > 1 << 16 { return None; }
+    Some(primes_down(m, bits, cap).len())
+}
+fn random_prime(rng: &mut Rng, m: u64, bits: u32, avoid: &[u64]) -> Option<u64> {
+    if bits < 2 || bits > 61 { return None; }
+    let lo = 1u64 << (bits - 1); let hi = (1u64 << bits) - 1;
+    let kmin = (lo + m - 2) / m; // smallest k with k*m+1 >= lo
+    let kmax = (hi - 1) / m;
+    if kmin > kmax { return None; }
+    if kmax - kmin < 256 {
+        let c: Vec<u64> = (kmin..=kmax).map(|k| k * m + 1).filter(|&v| v >= lo && v <= hi && refm::is_prime(v) && !avoid.contains(&v)).collect();
+        if c.is_empty() { return None; }
+        return Some(*rng.pick(&c));
+    }
+    for _ in 0..6000 {
+        let v = rng.range(kmin, kmax) * m + 1;
+        if v >= lo && v <= hi && refm::is_prime(v) && !avoid.contains(&v) { return Some(v); }
+    }
+    None
+}
+
+// ------------------------------------------------------------------------------------------ the independent predicate
+#[derive(Clone, Debug, Default)]
+struct Verdict {
+    /// every reason why the level is NOT admissible (empty = admissible)
+    reasons: Vec<&'static str>,
+    /// a primitive 2N-th root exists modulo every q_i but some q_i is composite: the library's
+    /// randomised root search (designed for prime moduli) may or may not find one
+    random_ntt: bool,
+    total_bits: usize,
+}
+#[derive(Clone, Copy, PartialEq, Debug)]
+enum Tri { Yes, No, Random }
+impl Verdict {
+    fn has(&self, r: &str) -> bool { self.reasons.iter().any(|x| *x == r) }
+    /// reasons of the *literal* predicate of the property text
+    fn literal_reasons(&self) -> Vec<&'static str> { self.reasons.iter().copied().filter(|r| *r != "q_no_2n_root").collect() }
+    fn first(&self) -> &'static str { self.reasons.first().copied().unwrap_or("valid") }
+    fn tri(&self) -> Tri { if !self.reasons.is_empty() { Tri::No } else if self.random_ntt { Tri::Random } else { Tri::Yes } }
+}
+
+fn level_verdict(scheme: SchemeType, n: usize, qs: &[u64], t: u64, sec: SecurityLevel, infos: &Infos) -> Verdict {
+    let mut v = Verdict::default();
+    let tmp_store: Vec<ValInfo> = qs.iter().filter(|q| !infos.contains_key(q)).map(|&q| val_info(q)).collect();
+    let mut ti = 0;
+    let qi: Vec<&ValInfo> = qs.iter().map(|q| match infos.get(q) { Some(x) => x, None => { ti += 1; &tmp_store[ti - 1] } }).collect();
+    if scheme == SchemeType::None { v.reasons.push("scheme_none"); }
+    let k = qs.len();
+    if k < 1 || k > 64 { v.reasons.push("k_range"); }
+    if qi.iter().any(|i| i.bits < 2 || i.bits > 60) { v.reasons.push("q_bits"); }
+    let n_in_range = n >= DEGREE_MIN && n <= DEGREE_MAX;
+    let n_pow2 = n > 0 && n & (n - 1) == 0;
+    if !n_in_range { v.reasons.push("n_range"); }
+    if !n_pow2 { v.reasons.push("n_not_pow2"); }
+    let big_q = if qs.iter().any(|&q| q == 0) { BigU::zero() } else { refm::product(qs) };
+    v.total_bits = if k == 0 { 0 } else { big_q.bits() };
+    if let Some(max) = std_max_bits(n, sec) { if v.total_bits > max { v.reasons.push("insecure"); } }
+    let mut coprime = true;
+    for i in 0..k { for j in 0..i { if qs[i] == 0 || qs[j] == 0 || refm::gcd(qs[i], qs[j]) != 1 { coprime = false; } } }
+    if !coprime { v.reasons.push("q_not_coprime"); }
+    if n_in_range && n_pow2 && k >= 1 {
+        let m = 2 * n as u64;
+        if qs.iter().any(|&q| q % m != 1) { v.reasons.push("q_not_1_mod_2n"); }
+        else if qi.iter().any(|i| i.factors.iter().any(|&p| p % m != 1)) { v.reasons.push("q_no_2n_root"); }
+        else if qi.iter().any(|i| !i.prime) { v.random_ntt = true; }
+    }
+    if is_bfv_like(scheme) {
+        let tb = refm::bit_len(t);
+        if tb < 2 || tb > 60 { v.reasons.push("t_bits"); }
+        else {
+            if qs.iter().any(|&q| q != 0 && refm::gcd(q, t) != 1) { v.reasons.push("t_not_coprime"); }
+            if k >= 1 && BigU::from_u64(t) >= big_q { v.reasons.push("t_ge_q"); }
+        }
+    } else if scheme == SchemeType::CKKS && t != 0 { v.reasons.push("t_nonzero"); }
+    v
+}
+
+#[derive(PartialEq, Debug)]
+enum Truth { True, False, ToleratedRandom, Unverifiable }
+/// is the documented meaning of the reported error code true of the input?
+fn error_truth(err: &str, v: &Verdict) -> Truth {
+    let t = |b: bool| if b { Truth::True } else { Truth::False };
+    match err {
+        "InvalidScheme" => t(v.has("scheme_none")),
+        "InvalidCoeffModulusSize" => t(v.has("k_range")),
+        "InvalidCoeffModulusBitCount" => t(v.has("q_bits")),
+        "InvalidPolyModulusDegree" => t(v.has("n_range")),
+        "InvalidPolyModulusDegreeNonPowerOfTwo" => t(v.has("n_not_pow2")),
+        "InvalidParametersInsecure" => t(v.has("insecure")),
+        "FailedCreatingRNSBase" => t(v.has("q_not_coprime")),
+        "InvalidCoeffModulusNoNTT" => if v.has("q_not_1_mod_2n") || v.has("q_no_2n_root") { Truth::True } else if v.random_ntt { Truth::ToleratedRandom } else { Truth::False },
+        "InvalidPlainModulusBitCount" => t(v.has("t_bits")),
+        "InvalidPlainModulusCoprimality" => t(v.has("t_not_coprime")),
+        "InvalidPlainModulusTooLarge" => t(v.has("t_ge_q")),
+        "InvalidPlainModulusNonzero" => t(v.has("t_nonzero")),
+        "InvalidParametersTooLarge" => Truth::False, // k <= 64 and N <= 2^17 can never overflow usize
+        _ => Truth::Unverifiable,                     // FailedCreatingRNSTool: no documented arithmetic meaning
+    }
+}
+
+// ------------------------------------------------------------------------------------------ candidates
+#[derive(Clone, Debug)]
+struct Cand<'a> {
+    scheme: SchemeType, n: usize,
+    /// None = set_coeff_modulus never called
+    qs: Option<&'a [u64]>,
+    t: u64, sec: SecurityLevel, expand: bool, special: bool,
+}
+impl<'a> Cand<'a> {
+    fn describe(&self) -> Value {
+        json!({"scheme": scheme_name(self.scheme), "poly_modulus_degree": self.n, "coeff_modulus": self.qs.map(|q| q.to_vec()),
+            "plain_modulus": self.t, "security": sec_name(self.sec), "expand_mod_chain": self.expand, "use_special_prime_for_encryption": self.special})
+    }
+    fn qlist(&self) -> &'a [u64] { self.qs.unwrap_or(&[]) }
+    /// independent prediction of the documented builder refusals
+    fn predicted_constructible(&self) -> bool {
+        let okv = |v: u64| v == 0 || (v >= 2 && v >> 61 == 0);
+        if !okv(self.t) || self.qlist().iter().any(|&q| !okv(q)) { return false; }
+        if let Some(q) = self.qs { if q.is_empty() || q.len() > 64 { return false; } }
+        match self.scheme {
+            SchemeType::None => self.n == 0 && self.qs.is_none() && self.t == 0,
+            SchemeType::CKKS => self.t == 0,
+            _ => true,
+        }
+    }
+}
+
+/// Build through the public builder. order 0: degree, coeff, plain, flag (zero/unset values are
+/// not set at all), cached Modulus objects; order 1: flag, plain, coeff, degree, every setter
+/// called, every Modulus constructed afresh.
+fn build(c: &Cand, order: u8, cache: Option<&HashMap<u64, Modulus>>) -> Result<EncryptionParameters, Panicked> {
+    lib(|| {
+        let mk = |v: u64| -> Modulus { if let Some(m) = cache.and_then(|h| h.get(&v)) { *m } else { Modulus::new(v) } };
+        let mut p = EncryptionParameters::new(c.scheme);
+        if order == 0 {
+            if c.n != 0 { p = p.set_poly_modulus_degree(c.n); }
+            if let Some(qs) = c.qs { let ms: Vec<Modulus> = qs.iter().map(|&v| mk(v)).collect(); p = p.set_coeff_modulus(&ms); }
+            if c.t != 0 { p = p.set_plain_modulus(&mk(c.t)); }
+            p.set_use_special_prime_for_encryption(c.special)
+        } else {
+            p = p.set_use_special_prime_for_encryption(c.special);
+            p = p.set_plain_modulus_u64(c.t);
+            if let Some(qs) = c.qs { let ms: Vec<Modulus> = qs.iter().map(|&v| Modulus::new(v)).collect(); p = p.set_coeff_modulus(&ms); }
+            p.set_poly_modulus_degree(c.n)
+        }
+    })
+}
+
+// ------------------------------------------------------------------------------------------ global id store (collision check)
+struct IdStore { shards: Vec<Mutex<HashMap<[u64; 4], Box<[u64]>>>> }
+impl IdStore {
+    fn new() -> IdStore { IdStore { shards: (0..64).map(|_| Mutex::new(HashMap::new())).collect() } }
+    /// returns the previously stored, different word vector on a collision
+    fn insert(&self, id: &[u64; 4], words: &[u64]) -> Option<Vec<u64>> {
+        let mut g = self.shards[(id[0] & 63) as usize].lock().unwrap();
+        match g.get(id) {
+            Some(w) => if &w[..] != words { Some(w.to_vec()) } else { None },
+            None => { g.insert(*id, words.to_vec().into_boxed_slice()); None }
+        }
+    }
+    fn len(&self) -> usize { self.shards.iter().map(|s| s.lock().unwrap().len()).sum() }
+}
+fn words_of(scheme: SchemeType, n: usize, qs: &[u64], t: u64) -> Vec<u64> {
+    let mut w = vec![scheme_word(scheme), n as u64]; w.extend_from_slice(qs); w.push(t); w
+}
+
+struct Env<'a> { cfg: &'a Cfg, grp: &'a str, case: u64, store: &'a IdStore, cache: Option<&'a HashMap<u64, Modulus>> }
+impl<'a> Env<'a> {
+    fn viol(&self, rep: &mut Report, op: &str, class: &str, kind: &str, detail: String, c: &Cand) {
+        rep.violation(&format!("{}|{}|{}|{}", P, op, class, kind), format!("{} ; input {}", detail, c.describe()), replay_json(self.cfg, self.grp, self.case, c.describe()));
+    }
+}
+
+/// id of a freshly built parameter object: equals the reference hash; globally collision free
+fn register_object(env: &Env, rep: &mut Report, c: &Cand, parms: &EncryptionParameters) {
+    let want = sha_id(c.scheme, c.n, c.qlist(), c.t);
+    let got = *parms.parms_id();
+    rep.count("checks", "parms_id_vs_reference_sha256");
+    if got != want {
+        env.viol(rep, "parms_id", &format!("scheme={},object", scheme_name(c.scheme)), "value", format!("parms_id {} but SHA-256 of the documented words is {}", idhex(&got), idhex(&want)), c);
+    }
+    // the object must also report what was put in
+    let back: Vec<u64> = parms.coeff_modulus().iter().map(|m| m.value()).collect();
+    if parms.scheme() != c.scheme || parms.poly_modulus_degree() != c.n || back != c.qlist() || parms.plain_modulus().value() != c.t || parms.use_special_prime_for_encryption() != c.special {
+        env.viol(rep, "builder", &format!("scheme={}", scheme_name(c.scheme)), "value", format!("builder object reports scheme {:?} n {} q {:?} t {} flag {}", parms.scheme(), parms.poly_modulus_degree(), back, parms.plain_modulus().value(), parms.use_special_prime_for_encryption()), c);
+    }
+    if let Some(other) = env.store.insert(&got, &words_of(c.scheme, c.n, c.qlist(), c.t)) {
+        env.viol(rep, "parms_id", "distinct_objects", "collision", format!("id {} shared with parameter words {:?}", idhex(&got), other), c);
+    }
+}
+
+#[derive(Clone, Debug, PartialEq)]
+struct Summary { set: bool, err: String, key: [u64; 4], first: [u64; 4], last: [u64; 4], chain: Vec<([u64; 4], usize)> }
+
+fn chain_nodes(ctx: &HeContext) -> Option<Vec<Arc<ContextData>>> {
+    let mut nodes = vec![ctx.key_context_data()?];
+    while let Some(nx) = nodes.last().unwrap().next_context_data() {
+        nodes.push(nx);
+        if nodes.len() > 70 { break; }
+    }
+    Some(nodes)
+}
+fn summarize(ctx: &HeContext) -> Option<Summary> {
+    let nodes = chain_nodes(ctx)?;
+    Some(Summary {
+        set: ctx.parameters_set(), err: format!("{:?}", nodes[0].qualifiers().parameter_error),
+        key: *ctx.key_parms_id(), first: *ctx.first_parms_id(), last: *ctx.last_parms_id(),
+        chain: nodes.iter().map(|n| (*n.parms_id(), n.chain_index())).collect(),
+    })
+}
+
+/// Everything the property says about one parameter object + (security, expand) pair.
+/// `verdicts[len]` is the verdict for the prefix of `len` moduli.
+fn examine(env: &Env, rep: &mut Report, c: &Cand, parms: &EncryptionParameters, verdicts: &[Verdict], infos: &Infos, second: bool) {
+    let qs = c.qlist();
+    let k = qs.len();
+    let vkey = &verdicts[k];
+    let sname = scheme_name(c.scheme);
+    let ctx = match lib(|| HeContext::new(parms.clone(), c.expand, c.sec)) {
+        Ok(x) => x,
+        Err(p) => {
+            rep.eval(Some(&format!("{}/panic/{}", sname, vkey.first())));
+            rep.count("outcome", "PANIC");
+            env.viol(rep, "HeContext::new", &format!("{},{}", sname, vkey.first()), "panic", format!("HeContext::new panicked: {}", p.0), c);
+            return;
+        }
+    };
+    let Some(nodes) = chain_nodes(&ctx) else {
+        rep.eval(None);
+        env.viol(rep, "HeContext::new", &format!("{},{}", sname, vkey.first()), "no_key_context_data", "key_context_data() is None".into(), c);
+        return;
+    };
+    let key = &nodes[0];
+    let err = format!("{:?}", key.qualifiers().parameter_error);
+    let set = ctx.parameters_set();
+    rep.count("outcome", &err);
+    rep.count("scheme_x_outcome", &format!("{}:{}", sname, if set { "accepted" } else { "rejected" }));
+    rep.count("security_x_outcome", &format!("{}:{}", sec_name(c.sec), if set { "accepted" } else if err == "InvalidParametersInsecure" { "insecure" } else { "rejected_other" }));
+    rep.count("verdict_of_reference_predicate", match vkey.tri() { Tri::Yes => "admissible", Tri::No => "inadmissible", Tri::Random => "admissible_but_composite_ntt_modulus" });
+    if set != (err == "Success") || set != key.qualifiers().parameters_set() {
+        env.viol(rep, "HeContext::parameters_set", sname, "value", format!("parameters_set()={} but key-level error is {}", set, err), c);
+    }
+    if !set {
+        rep.eval(Some(&format!("{}/{}/{}", sname, err, vkey.first())));
+        if err == "None" || err == "Success" || !DOCUMENTED_ERRORS.contains(&err.as_str()) {
+            env.viol(rep, "validate", &format!("{},reported={}", sname, err), "unspecific_error", format!("rejected with error {:?}", err), c);
+        } else {
+            match error_truth(&err, vkey) {
+                Truth::True => {}
+                Truth::ToleratedRandom => { rep.count("composite_ntt_friendly_modulus", "rejected_NoNTT_although_root_exists"); rep.out_of_precondition += 1; }
+                Truth::Unverifiable => rep.count("composite_ntt_friendly_modulus", &format!("unverifiable_error_{}", err)),
+                Truth::False => env.viol(rep, "validate", &format!("{},reported={},actual={}", sname, err, vkey.first()), "false_error",
+                    format!("rejected with {} but that condition does not hold; reference predicate says {:?} (total bits {})", err, if vkey.reasons.is_empty() { vec!["admissible"] } else { vkey.reasons.clone() }, vkey.total_bits), c),
+            }
+        }
+        rep.count("rejected_chain_shape", if nodes.len() == 1 && ctx.first_parms_id() == ctx.key_parms_id() && ctx.last_parms_id() == ctx.key_parms_id() { "key_only" } else { "other" });
+    } else {
+        // ---------------- soundness at the key level (every level is checked in check_chain)
+        let lit = vkey.literal_reasons();
+        if !lit.is_empty() {
+            env.viol(rep, "validate", &format!("{},{}", sname, lit[0]), "not_refused", format!("parameters accepted although {:?}", lit), c);
+        }
+        if k >= 1 { check_chain(env, rep, c, &ctx, &nodes, verdicts, infos); } else { rep.eval(None); }
+        if vkey.random_ntt { rep.count("composite_ntt_friendly_modulus", "accepted"); }
+    }
+    // ---------------- an independently built second context agrees
+    if second {
+        let second_parms = build(c, 1, None);
+        match second_parms {
+            Err(p) => env.viol(rep, "builder", &format!("{},setter_order", sname), "panic", format!("the same parameters could not be built in another setter order: {}", p.0), c),
+            Ok(p2) => {
+                rep.count("checks", "second_independent_build");
+                if p2.parms_id() != parms.parms_id() {
+                    env.viol(rep, "parms_id", &format!("scheme={},setter_order", sname), "value", format!("ids differ between two builds: {} vs {}", idhex(parms.parms_id()), idhex(p2.parms_id())), c);
+                }
+                match lib(|| HeContext::new(p2.clone(), c.expand, c.sec)) {
+                    Err(pn) => env.viol(rep, "HeContext::new", &format!("{},second_build", sname), "panic", format!("second build panicked: {}", pn.0), c),
+                    Ok(ctx2) => {
+                        let (a, b) = (summarize(&ctx), summarize(&ctx2));
+                        if a != b {
+                            let any_random = verdicts.iter().skip(1).any(|v| v.random_ntt);
+                            if any_random {
+                                rep.count("composite_ntt_friendly_modulus", "two_builds_disagree");
+                                env.viol(rep, "HeContext::new", "ntt_friendly_composite_coeff_modulus", "nondeterministic",
+                                    format!("two contexts built from identical parameters disagree: first {:?} / second {:?}", a.map(|s| (s.set, s.err, s.chain.len())), b.map(|s| (s.set, s.err, s.chain.len()))), c);
+                            } else {
+                                env.viol(rep, "HeContext::new", &format!("{},two_builds", sname), "disagree", format!("first {:?} second {:?}", a, b), c);
+                            }
+                        }
+                    }
+                }
+            }
+        }
+    }
+}
+
+fn limbs_eq(got: &[u64], want: &BigU, len: usize) -> bool { want.l.len() <= len && got == &want.to_limbs(len)[..] }
+
+fn check_chain(env: &Env, rep: &mut Report, c: &Cand, ctx: &Arc<HeContext>, nodes: &[Arc<ContextData>], verdicts: &[Verdict], infos: &Infos) {
+    let qs = c.qlist();
+    let k = qs.len();
+    let sname = scheme_name(c.scheme);
+    let n = c.n;
+    macro_rules! bad { ($op:expr, $class:expr, $kind:expr, $($arg:tt)*) => { env.viol(rep, $op, &$class, $kind, format!($($arg)*), c) }; }
+
+    // ---------- expected shape, from the documented construction rule:
+    // key level = all moduli; if there is more than one modulus and the special-prime flag is
+    // off, the first data level drops the last modulus (when that is admissible); with
+    // expand_mod_chain further levels drop one modulus at a time while admissible.
+    let max_steps = if c.expand { k - 1 } else if k > 1 && !c.special { 1 } else { 0 };
+    let mut steps = 0;
+    let mut shape_ok = true;
+    for s in 1..=max_steps {
+        let present = nodes.len() > s;
+        match verdicts[k - s].tri() {
+            Tri::Yes => { if !present { shape_ok = false; bad!("chain", format!("{},missing_level", sname), "structure", "level with {} moduli is admissible but absent (chain has {} nodes)", k - s, nodes.len()); break; } }
+            Tri::No => { if present { shape_ok = false; bad!("validate", format!("{},level={}", sname, verdicts[k - s].first()), "not_refused", "chain contains a level with {} moduli although {:?}", k - s, verdicts[k - s].reasons); } break; }
+            Tri::Random => { if !present { rep.count("composite_ntt_friendly_modulus", "chain_level_dropped"); break; } }
+        }
+        steps = s;
+    }
+    if shape_ok && nodes.len() != steps + 1 {
+        bad!("chain", format!("{},length", sname), "structure", "chain has {} nodes, construction rule gives {} (k={}, expand={}, special={})", nodes.len(), steps + 1, k, c.expand, c.special);
+    }
+    rep.count("chain_length", &format!("{:02}", nodes.len()));
+    let mut first_index = if k == 1 || c.special || nodes.len() == 1 { 0 } else { 1 };
+    if first_index == 1 && verdicts[k - 1].tri() == Tri::Random && *ctx.first_parms_id() == *nodes[0].parms_id() {
+        // the level below the key contains a composite modulus: its first (randomised) validation
+        // failed, so first = key, and the re-validation during chain expansion succeeded
+        rep.count("composite_ntt_friendly_modulus", "first_is_key_but_chain_continues");
+        first_index = 0;
+    }
+    rep.count("first_is_key", &format!("k={},special={},first==key:{}", if k == 1 { "1" } else { ">1" }, c.special, first_index == 0));
+    if *ctx.key_parms_id() != *nodes[0].parms_id() { bad!("chain", format!("{},key_parms_id", sname), "structure", "key_parms_id {} is not the head of the chain {}", idhex(ctx.key_parms_id()), idhex(nodes[0].parms_id())); }
+    if *ctx.first_parms_id() != *nodes[first_index].parms_id() {
+        bad!("chain", format!("{},first_parms_id,k={},special={}", sname, if k == 1 { "1" } else { ">1" }, c.special), "structure", "first_parms_id {} but node {} of the chain is {}", idhex(ctx.first_parms_id()), first_index, idhex(nodes[first_index].parms_id()));
+    }
+    if *ctx.last_parms_id() != *nodes[nodes.len() - 1].parms_id() { bad!("chain", format!("{},last_parms_id", sname), "structure", "last_parms_id {} is not the tail {}", idhex(ctx.last_parms_id()), idhex(nodes[nodes.len() - 1].parms_id())); }
+    if ctx.using_keyswitching() != (first_index != 0) { bad!("using_keyswitching", sname.to_string(), "value", "using_keyswitching {} but first==key is {}", ctx.using_keyswitching(), first_index == 0); }
+    if format!("{:?}", ctx.security_level()) != format!("{:?}", c.sec) { bad!("security_level", sname.to_string(), "value", "context reports {:?}", ctx.security_level()); }
+    match (ctx.first_context_data(), ctx.last_context_data()) {
+        (Some(f), Some(l)) => { if !Arc::ptr_eq(&f, &nodes[first_index]) || !Arc::ptr_eq(&l, &nodes[nodes.len() - 1]) { bad!("chain", format!("{},first_last_context_data", sname), "structure", "first/last_context_data are not the chain nodes"); } }
+        _ => bad!("chain", format!("{},first_last_context_data", sname), "structure", "first/last_context_data missing"),
+    }
+
+    // ---------- links, indices, per-level content
+    if nodes[0].prev_context_data().is_some() { bad!("chain", format!("{},key_prev", sname), "structure", "key level has a predecessor"); }
+    if nodes[nodes.len() - 1].next_context_data().is_some() { bad!("chain", format!("{},tail_next", sname), "structure", "walk ended before the tail (cycle or > 70 nodes)"); }
+    if nodes[nodes.len() - 1].chain_index() != 0 { bad!("chain_index", format!("{},tail", sname), "value", "last level has chain_index {} (chain of {} nodes)", nodes[nodes.len() - 1].chain_index(), nodes.len()); }
+    let mut agg_flags = String::new();
+    for (i, nd) in nodes.iter().enumerate() {
+        let lvl = if i == 0 { "key" } else { "data" };
+        if i > 0 {
+            match nd.prev_context_data() {
+                Some(pv) => if !Arc::ptr_eq(&pv, &nodes[i - 1]) || pv.parms_id() != nodes[i - 1].parms_id() { bad!("chain", format!("{},prev_link", sname), "structure", "node {} prev is not node {}", i, i - 1); },
+                None => bad!("chain", format!("{},prev_link", sname), "structure", "node {} has no prev", i),
+            }
+            if !(nd.chain_index() < nodes[i - 1].chain_index()) { bad!("chain_index", format!("{},order", sname), "value", "chain_index {} at node {} does not decrease from {}", nd.chain_index(), i, nodes[i - 1].chain_index()); }
+            else if nd.chain_index() + 1 != nodes[i - 1].chain_index() { rep.count("chain_index_step", "gap>1"); }
+        }
+        match ctx.get_context_data(nd.parms_id()) {
+            Some(g) => if !Arc::ptr_eq(&g, nd) { bad!("get_context_data", format!("{},{}", sname, lvl), "value", "get_context_data(id of node {}) returns another object", i); },
+            None => bad!("get_context_data", format!("{},{}", sname, lvl), "value", "get_context_data does not find node {} ({})", i, idhex(nd.parms_id())),
+        }
+        if i >= k { bad!("chain", format!("{},too_long", sname), "structure", "node {} in a chain over {} moduli", i, k); break; }
+        let len = k - i;
+        let lq = &qs[..len];
+        let pr = nd.parms();
+        let got_q: Vec<u64> = pr.coeff_modulus().iter().map(|m| m.value()).collect();
+        if got_q != lq { bad!("chain", format!("{},prefix", sname), "structure", "node {} has moduli {:?}, expected the prefix {:?}", i, got_q, lq); continue; }
+        if pr.scheme() != c.scheme || pr.poly_modulus_degree() != n || pr.plain_modulus().value() != c.t { bad!("chain", format!("{},level_parms", sname), "structure", "node {} changed scheme/degree/plain modulus", i); }
+        let want_id = sha_id(c.scheme, n, lq, c.t);
+        rep.count("checks", "level_id_vs_reference_sha256");
+        if *nd.parms_id() != want_id || *pr.parms_id() != want_id { bad!("parms_id", format!("scheme={},level={}", sname, lvl), "value", "node {} id {} / parms id {} but reference {}", i, idhex(nd.parms_id()), idhex(pr.parms_id()), idhex(&want_id)); }
+        if let Some(other) = env.store.insert(&want_id, &words_of(c.scheme, n, lq, c.t)) { bad!("parms_id", "distinct_objects".to_string(), "collision", "level id {} shared with parameter words {:?}", idhex(&want_id), other); }
+        // soundness of every level
+        let v = &verdicts[len];
+        let lit = v.literal_reasons();
+        if i > 0 && !lit.is_empty() && shape_ok { bad!("validate", format!("{},level={}", sname, lit[0]), "not_refused", "level {} ({} moduli) accepted although {:?}", i, len, lit); }
+        let ql = nd.qualifiers();
+        if !ql.parameters_set() { bad!("qualifiers", format!("{},{},parameters_set", sname, lvl), "value", "chain node {} is not parameters_set ({:?})", i, ql.parameter_error); }
+
+        // ---------- constants against their definitions
+        let big_q = refm::product(lq);
+        if !limbs_eq(nd.total_coeff_modulus(), &big_q, len) { bad!("total_coeff_modulus", format!("{},k={}", sname, if len == 1 { "1" } else { ">1" }), "value", "node {}: {:?}, expected {}", i, nd.total_coeff_modulus(), big_q.to_dec()); }
+        if nd.total_coeff_modulus_bit_count() != big_q.bits() { bad!("total_coeff_modulus_bit_count", sname.to_string(), "value", "node {}: {}, expected {}", i, nd.total_coeff_modulus_bit_count(), big_q.bits()); }
+        if let Some(max) = std_max_bits(n, c.sec) { rep.min(&format!("security_slack_bits_{}", sec_name(c.sec)), max as f64 - big_q.bits() as f64); }
+        let m2n = 2 * n as u64;
+        let roots = nd.small_ntt_tables();
+        if roots.len() != len { bad!("small_ntt_tables", sname.to_string(), "value", "node {}: {} tables for {} moduli", i, roots.len(), len); }
+        else { for j in 0..len { if !refm::is_primitive_2n_root(roots[j].root(), n, lq[j]) { bad!("small_ntt_tables", format!("{},root", sname), "value", "node {}: root {} of modulus {} is not a primitive {}-th root of unity", i, roots[j].root(), lq[j], m2n); } } }
+        if !ql.using_fft || !ql.using_ntt { bad!("qualifiers", format!("{},using_fft_ntt", sname), "value", "node {}: using_fft {} using_ntt {}", i, ql.using_fft, ql.using_ntt); }
+        let desc = lq.windows(2).all(|w| w[0] > w[1]);
+        if ql.using_descending_modulus_chain != desc { bad!("qualifiers", format!("{},using_descending_modulus_chain", sname), "value", "node {}: flag {} for moduli {:?}", i, ql.using_descending_modulus_chain, lq); }
+        if format!("{:?}", ql.sec_level) != format!("{:?}", c.sec) { bad!("qualifiers", format!("{},sec_level", sname), "value", "node {}: sec_level {:?}, requested {:?}", i, ql.sec_level, c.sec); }
+        let t = c.t;
+        if is_bfv_like(c.scheme) && t >= 2 && BigU::from_u64(t) < big_q {
+            let (quo, rem) = big_q.divrem(&BigU::from_u64(t));
+            let r = rem.low_u64();
+            let cd = nd.coeff_div_plain_modulus();
+            if cd.len() != len { bad!("coeff_div_plain_modulus", format!("{},len", sname), "value", "node {}: {} entries for {} moduli", i, cd.len(), len); }
+            else { for j in 0..len {
+                let w = quo.rem_u64(lq[j]);
+                let wq = (((w as u128) << 64) / lq[j] as u128) as u64;
+                if cd[j].operand != w || cd[j].quotient != wq { bad!("coeff_div_plain_modulus", format!("{},level={}", sname, lvl), "value", "node {} prime {}: operand {} quotient {}, expected floor(q/t) mod q_i = {} (quotient {})", i, lq[j], cd[j].operand, cd[j].quotient, w, wq); }
+            } }
+            if nd.coeff_modulus_mod_plain_modulus() != r { bad!("coeff_modulus_mod_plain_modulus", format!("{},level={}", sname, lvl), "value", "node {}: {}, expected q mod t = {}", i, nd.coeff_modulus_mod_plain_modulus(), r); }
+            let uh = nd.verif_upper_half_increment();
+            let want_uh: Vec<u64> = lq.iter().map(|&q| r % q).collect();
+            if uh != &want_uh { bad!("upper_half_increment", format!("{},level={}", sname, lvl), "value", "node {}: {:?}, expected (q mod t) mod q_i = {:?}", i, uh, want_uh); }
+            if nd.plain_upper_half_threshold() != (t + 1) / 2 { bad!("plain_upper_half_threshold", sname.to_string(), "value", "node {}: {}, expected (t+1)/2 = {}", i, nd.plain_upper_half_threshold(), (t + 1) / 2); }
+            let fast = lq.iter().all(|&q| q > t);
+            if ql.using_fast_plain_lift != fast { bad!("qualifiers", format!("{},using_fast_plain_lift", sname), "value", "node {}: flag {} with t {} and moduli {:?}", i, ql.using_fast_plain_lift, t, lq); }
+            let inc = nd.plain_upper_half_increment();
+            if fast {
+                let want: Vec<u64> = lq.iter().map(|&q| q - t).collect();
+                if inc != &want { bad!("plain_upper_half_increment", format!("{},fast_lift", sname), "value", "node {}: {:?}, expected q_i - t = {:?}", i, inc, want); }
+            } else if !limbs_eq(inc, &big_q.sub(&BigU::from_u64(t)), len) {
+                bad!("plain_upper_half_increment", format!("{},slow_lift", sname), "value", "node {}: {:?}, expected q - t = {}", i, inc, big_q.sub(&BigU::from_u64(t)).to_dec());
+            }
+            // batching <=> X^N+1 splits completely mod t <=> every prime factor of t is 1 mod 2N.
+            // The library can only decide this for prime t (randomised search built for a
+            // cyclic group of order t-1): for composite t only soundness is demanded.
+            let tinfo_tmp; let tinfo = match infos.get(&t) { Some(x) => x, None => { tinfo_tmp = val_info(t); &tinfo_tmp } };
+            let exists = tinfo.factors.iter().all(|&p| p % m2n == 1);
+            if tinfo.prime {
+                if ql.using_batching != exists { bad!("qualifiers", format!("{},using_batching,t_prime", sname), "value", "node {}: flag {} but t = {} is {} 1 mod {}", i, ql.using_batching, t, if exists { "" } else { "not" }, m2n); }
+            } else if ql.using_batching && !exists {
+                bad!("qualifiers", format!("{},using_batching,t_composite", sname), "value", "node {}: batching claimed for t = {} whose factors {:?} are not all 1 mod {}", i, t, tinfo.factors, m2n);
+            } else if exists && !ql.using_batching { rep.count("composite_plain_modulus", "batching_possible_but_not_found"); rep.out_of_precondition += 1; }
+            else if exists { rep.count("composite_plain_modulus", "batching_found"); }
+            if ql.using_batching {
+                match lib(|| nd.plain_ntt_tables().root()) {
+                    Ok(rt) => if !refm::is_primitive_2n_root(rt, n, t) { bad!("plain_ntt_tables", format!("{},root", sname), "value", "node {}: root {} is not a primitive {}-th root of unity mod {}", i, rt, m2n, t); },
+                    Err(p) => bad!("plain_ntt_tables", format!("{},missing", sname), "panic", "node {}: using_batching but plain_ntt_tables() panics: {}", i, p.0),
+                }
+            }
+            if i == 0 { agg_flags = format!("{}:batching={},fast_lift={},descending={},keyswitching={}", sname, ql.using_batching, ql.using_fast_plain_lift, ql.using_descending_modulus_chain, first_index != 0); }
+        } else if c.scheme == SchemeType::CKKS {
+            let want = big_q.add_u64(1).shr(1);
+            if !limbs_eq(nd.upper_half_threshold(), &want, len) { bad!("upper_half_threshold", format!("{},k={}", sname, if len == 1 { "1" } else { ">1" }), "value", "node {}: {:?}, expected (q+1)/2 = {}", i, nd.upper_half_threshold(), want.to_dec()); }
+            if nd.plain_upper_half_threshold() != 1u64 << 63 { bad!("plain_upper_half_threshold", sname.to_string(), "value", "node {}: {}, expected 2^63", i, nd.plain_upper_half_threshold()); }
+            // a 64-bit two's complement coefficient x >= 2^63 means x - 2^64: the increment is -2^64 mod q_i
+            let want: Vec<u64> = lq.iter().map(|&q| { let r = ((1u128 << 64) % q as u128) as u64; if r == 0 { 0 } else { q - r } }).collect();
+            if nd.plain_upper_half_increment() != &want { bad!("plain_upper_half_increment", format!("{},ckks", sname), "value", "node {}: {:?}, expected -2^64 mod q_i = {:?}", i, nd.plain_upper_half_increment(), want); }
+            if !ql.using_batching || ql.using_fast_plain_lift { bad!("qualifiers", format!("{},ckks_flags", sname), "value", "node {}: using_batching {} using_fast_plain_lift {}", i, ql.using_batching, ql.using_fast_plain_lift); }
+            if i == 0 { agg_flags = format!("{}:batching={},fast_lift={},descending={},keyswitching={}", sname, ql.using_batching, ql.using_fast_plain_lift, ql.using_descending_modulus_chain, first_index != 0); }
+        }
+        rep.count("levels_checked", lvl);
+    }
+    rep.count("flags", &agg_flags);
+    rep.eval(Some(&format!("{}/ok/len{}/k{}/{}/{}/{}", sname, nodes.len(), k.min(9), agg_flags, c.expand, c.special)));
+    rep.max("accepted_moduli_count", k as f64);
+    rep.max("accepted_degree", n as f64);
+    if rep.samples.len() < 2 {
+        let levels: Vec<Value> = nodes.iter().enumerate().map(|(i, nd)| {
+            let ql = nd.qualifiers();
+            json!({"node": i, "chain_index": nd.chain_index(), "parms_id": idhex(nd.parms_id()), "moduli": nd.parms().coeff_modulus().iter().map(|m| m.value()).collect::<Vec<_>>(),
+                "total_coeff_modulus": BigU::from_limbs(nd.total_coeff_modulus()).to_dec(), "bits": nd.total_coeff_modulus_bit_count(),
+                "q_div_t_mod_qi": nd.coeff_div_plain_modulus().iter().map(|o| o.operand).collect::<Vec<_>>(), "q_mod_t": nd.coeff_modulus_mod_plain_modulus(),
+                "plain_upper_half_threshold": nd.plain_upper_half_threshold().to_string(), "plain_upper_half_increment": nd.plain_upper_half_increment(), "upper_half_threshold": nd.upper_half_threshold(),
+                "flags": format!("batching={} fast_lift={} descending={} sec={:?}", ql.using_batching, ql.using_fast_plain_lift, ql.using_descending_modulus_chain, ql.sec_level)})
+        }).collect();
+        rep.sample(json!({"group": env.grp, "case": env.case, "input": c.describe(), "observed": {"parameters_set": true, "using_keyswitching": ctx.using_keyswitching(),
+            "key": idhex(ctx.key_parms_id()), "first": idhex(ctx.first_parms_id()), "last": idhex(ctx.last_parms_id()), "levels": levels}, "all_oracles_passed_or_reported": true}));
+    }
+}
+
+// ------------------------------------------------------------------------------------------ generated moduli
+/// properties of moduli returned by a generator: distinct, exact sizes, = 1 mod `m`, prime
+fn check_generated(env: &Env, rep: &mut Report, op: &str, n: usize, m: u64, sizes: &[usize], out: &[Modulus], c: &Cand) {
+    let vals: Vec<u64> = out.iter().map(|x| x.value()).collect();
+    let mut why = vec![];
+    if vals.len() != sizes.len() { why.push(format!("returned {} moduli for {} sizes", vals.len(), sizes.len())); }
+    else { for (j, &v) in vals.iter().enumerate() { if refm::bit_len(v) != sizes[j] { why.push(format!("modulus {} has {} bits, {} requested", v, refm::bit_len(v), sizes[j])); break; } } }
+    let mut s = vals.clone(); s.sort(); s.dedup();
+    if s.len() != vals.len() { why.push("moduli not distinct".to_string()); }
+    if let Some(v) = vals.iter().find(|&&v| m == 0 || v % m != 1) { why.push(format!("{} is not 1 mod {}", v, m)); }
+    if let Some(v) = vals.iter().find(|&&v| !refm::is_prime(v)) { why.push(format!("{} is not prime", v)); }
+    if let Some(x) = out.iter().find(|x| !x.is_prime()) { why.push(format!("Modulus::is_prime() false for {}", x.value())); }
+    rep.count("generators", &format!("{}:returned", op));
+    if !why.is_empty() {
+        env.viol(rep, op, &format!("sizes={}", if sizes.len() == 1 { "1" } else { ">1" }), "value", format!("{}(N={}, sizes={:?}) = {:?}: {}", op, n, sizes, vals, why.join("; ")), c);
+    }
+}
+
+// ------------------------------------------------------------------------------------------ the universe
+struct Universe {
+    degrees: Vec<usize>,
+    pool: Vec<u64>,
+    plains: Vec<u64>,
+    infos: Infos,
+    cache: HashMap<u64, Modulus>,
+}
+impl Universe {
+    fn new() -> Universe {
+        let m = 1u64 << 18;
+        let p60 = primes_down(m, 60, 2);           // the two largest 60-bit primes = 1 mod 2^18
+        let p61 = primes_down(m, 61, 1)[0];        // a 61-bit prime (constructible, never admissible)
+        let pool = vec![0, 2, 3, 5, 13, 17, 97, 193, 257, 7681, 12289, 4, 15, 21, 34, 85, p60[0], p61];
+        let plains = vec![0, 2, 3, 16, 17, 34, 257, 1u64 << 58, p60[1], (1u64 << 60) + 1];
+        let degrees = vec![0, 1, 2, 3, 4, 6, 8, 16, 1024, 1 << 17, 1 << 18];
+        let mut infos = Infos::new(); let mut cache = HashMap::new();
+        for &v in pool.iter().chain(plains.iter()) { infos.insert(v, val_info(v)); cache.insert(v, Modulus::new(v)); }
+        Universe { degrees, pool, plains, infos, cache }
+    }
+    /// list index -> None (never set) / Some(list); index 1 is the empty list
+    fn n_lists(&self) -> usize { let p = self.pool.len(); 2 + p + p * p + p * p * p }
+    fn list(&self, idx: usize) -> Option<Vec<u64>> {
+        let p = self.pool.len();
+        if idx == 0 { return None; }
+        if idx == 1 { return Some(vec![]); }
+        let mut i = idx - 2;
+        if i < p { return Some(vec![self.pool[i]]); }
+        i -= p;
+        if i < p * p { return Some(vec![self.pool[i / p], self.pool[i % p]]); }
+        i -= p * p;
+        Some(vec![self.pool[i / (p * p)], self.pool[(i / p) % p], self.pool[i % p]])
+    }
+    fn describe(&self) -> String {
+        format!("schemes {{none,bfv,ckks,bgv}} x degrees {:?} x coeff lists {{unset, empty, every ordered list of length 1..3 over {:?}}} x plain moduli {:?} x security {{none,128,192,256}} x expand {{0,1}} x special-prime flag {{0,1}}", self.degrees, self.pool, self.plains)
+    }
+}
+
+fn universe_case(cfg: &Cfg, u: &Universe, store: &IdStore, case: u64, rep: &mut Report) {
+    let nd = u.degrees.len();
+    let li = case as usize / nd; let di = case as usize % nd;
+    let n = u.degrees[di];
+    let list = u.list(li);
+    // quick tier: every list of length <= 2, a seed-dependent 1/8 of the lists of length 3
+    if cfg.quick() && list.as_ref().map(|l| l.len() == 3).unwrap_or(false) {
+        if Rng::derive(cfg.seed, 0xC13, li as u64).below(8) != 0 { return; }
+    }
+    let env = Env { cfg, grp: "universe", case, store, cache: Some(&u.cache) };
+    let qs: Option<&[u64]> = list.as_deref();
+    let k = qs.map(|q| q.len()).unwrap_or(0);
+    rep.count("universe_lists", &format!("len={}", match &list { None => "unset".to_string(), Some(l) => l.len().to_string() }));
+    for &scheme in &SCHEMES {
+        for (tidx, &t) in u.plains.iter().enumerate() {
+            let base = Cand { scheme, n, qs, t, sec: SecurityLevel::None, expand: false, special: false };
+            let predicted = base.predicted_constructible();
+            let parms = match build(&base, 0, env.cache) {
+                Ok(p) => p,
+                Err(p) => {
+                    rep.count("builder", &format!("not_constructible:{}", p.0.split(" @ ").next().unwrap_or("").chars().take(60).collect::<String>()));
+                    rep.count("builder_vs_prediction", if predicted { "refused_but_predicted_constructible" } else { "refused_as_predicted" });
+                    rep.out_of_precondition += 1;
+                    continue;
+                }
+            };
+            rep.count("builder", "constructible");
+            rep.count("builder_vs_prediction", if predicted { "built_as_predicted" } else { "built_but_predicted_refusal" });
+            register_object(&env, rep, &base, &parms);
+            let mut first_combo = true;
+            for &sec in &SECS {
+                let verdicts: Vec<Verdict> = (0..=k).map(|len| level_verdict(scheme, n, &qs.unwrap_or(&[])[..len], t, sec, &u.infos)).collect();
+                for special in [false, true] {
+                    let p2 = parms.clone().set_use_special_prime_for_encryption(special);
+                    for expand in [false, true] {
+                        let c = Cand { scheme, n, qs, t, sec, expand, special };
+                        let tri = verdicts[k].tri();
+                        // second independent build: every potentially accepted small context, the first
+                        // combination of the big ones, and a quarter of the rejected objects once
+                        let second = match tri {
+                            Tri::No => first_combo && (li + di + tidx) % 4 == 0,
+                            _ => n <= 64 || first_combo,
+                        };
+                        examine(&env, rep, &c, &p2, &verdicts, &u.infos, second);
+                        first_combo = false;
+                    }
+                }
+            }
+        }
+    }
+}
+
+// ------------------------------------------------------------------------------------------ random larger configurations
+struct RandomCfg { scheme: SchemeType, n: usize, qs: Vec<u64>, t: u64, sec: SecurityLevel, expand: bool, special: bool, family: String }
+
+fn partition_bits(rng: &mut Rng, total: usize, k: usize, lo: usize, hi: usize) -> Option<Vec<usize>> {
+    if k == 0 || total < k * lo || total > k * hi { return None; }
+    let mut s = vec![lo; k];
+    let mut left = total - k * lo;
+    let mut guard = 0;
+    while left > 0 && guard < 100000 { let j = rng.usize_below(k); if s[j] < hi { s[j] += 1; left -= 1; } guard += 1; }
+    if left > 0 { return None; }
+    Some(s)
+}
+
+fn gen_random(rng: &mut Rng) -> RandomCfg {
+    let scheme = *rng.pick(&[SchemeType::BFV, SchemeType::CKKS, SchemeType::BGV]);
+    let std_n = rng.chance(1, 2);
+    let n = if std_n { *rng.pick(&[1024usize, 1024, 2048, 2048, 4096, 4096, 8192, 16384, 32768]) } else { 1usize << rng.range(1, 9) };
+    let m = 2 * n as u64;
+    let sec = if std_n { *rng.pick(&SECS) } else if rng.chance(1, 6) { *rng.pick(&SECS) } else { SecurityLevel::None };
+    let lo = (refm::bit_len(m) + 2).max(if std_n { 20 } else { 6 }).min(60);
+    let budget = std_max_bits(n, sec).filter(|&b| b > 0);
+    let mut family;
+    let style = rng.below(8);
+    let mut sizes: Vec<usize> = vec![];
+    if let (Some(b), true) = (budget, style < 5) {
+        // around the budget of the security table: under, exactly at, just over
+        let target = match style { 0 | 1 => b.saturating_sub(rng.below(12) as usize), 2 => b, 3 => b + 1 + rng.below(3) as usize, _ => b + rng.range(4, 120) as usize };
+        family = match style { 0 | 1 => "budget_under", 2 => "budget_exact", 3 => "budget_just_over", _ => "budget_far_over" }.to_string();
+        let kmin = (target + 59) / 60; let kmax = (target / lo).min(64);
+        if kmin <= kmax && kmax >= 1 {
+            let k = rng.range(kmin as u64, kmax.min(kmin + 6) as u64) as usize;
+            sizes = partition_bits(rng, target, k, lo, 60).unwrap_or_default();
+        }
+        if sizes.is_empty() { sizes = vec![target.clamp(lo, 60)]; family = "budget_single".into(); }
+    } else {
+        let k = match rng.below(10) { 0 => 64, 1 => rng.range(33, 64), 2 | 3 => rng.range(9, 32), _ => rng.range(1, 8) } as usize;
+        family = format!("free_k{}", if k > 32 { ">32" } else if k > 8 { "9..32" } else { "1..8" });
+        let same = rng.chance(1, 4);
+        let b0 = rng.range(lo as u64, 60) as usize;
+        sizes = (0..k).map(|_| if same { b0.max(lo + 8).min(60) } else { rng.range(lo as u64, 60) as usize }).collect();
+    }
+    let mut expand = rng.bool();
+    let special = rng.chance(1, 4);
+    // keep potentially accepted contexts affordable: N * k * levels <= 2^22
+    loop {
+        let k = sizes.len();
+        let levels = if expand { k } else { k.min(2) };
+        if n * k * levels <= 1 << 22 { break; }
+        if expand { expand = false; continue; }
+        if budget.is_some() { break; } // rejected before any table is built, or at most 16 moduli
+        sizes.pop();
+    }
+    let mut qs: Vec<u64> = vec![];
+    for &b in &sizes { if let Some(p) = random_prime(rng, m, b as u32, &qs) { qs.push(p); } }
+    if qs.is_empty() { qs.push(primes_down(m, 30.max(refm::bit_len(m) as u32 + 1), 1)[0]); }
+    match rng.below(6) { 0 | 1 => { qs.sort(); qs.reverse(); } 2 => qs.sort(), _ => {} }
+    // defects injected into the list
+    let inj = rng.below(28);
+    let pos = rng.usize_below(qs.len());
+    match inj {
+        0 => { let d = qs[rng.usize_below(qs.len())]; if qs.len() < 64 { qs.insert(pos, d); } else { qs[pos] = d; } family += "+duplicate"; }
+        1 => { // composite with a primitive 2N-th root: product of two primes = 1 mod 2N
+            let hb = (refm::bit_len(m) as u32 + 1).max(8).min(29);
+            if let (Some(a), Some(b)) = (random_prime(rng, m, hb, &[]), random_prime(rng, m, hb + 1, &[])) { qs[pos] = a * b; family += "+composite_ntt_friendly"; }
+        }
+        2 => { let v = (rng.bits(40) | 1 | 1 << 20) * 3; qs[pos] = v; family += "+composite_multiple_of_3"; }
+        3 => { let mut v = rng.bits(45) | 1 | 1 << 30; while !refm::is_prime(v) || v % m == 1 { v += 2; } qs[pos] = v; family += "+prime_not_ntt_friendly"; }
+        4 => { qs[pos] = (rng.bits(40) | 1 << 20) & !1; family += "+even_modulus"; }
+        5 => { if let Some(p) = random_prime(rng, m, 61, &[]) { qs[pos] = p; family += "+61bit_prime"; } }
+        6 => { qs[pos] = 0; family += "+zero_modulus"; }
+        7 => { // composite = 1 mod 2N without a root: (2N+... ) square of a prime = -1 mod 2N style
+            let mut v = m + 1; let mut found = None;
+            for _ in 0..20000 { if !refm::is_prime(v) && refm::bit_len(v) <= 60 && factor(v).iter().any(|&p| p % m != 1) { found = Some(v); break; } v += m * (1 + rng.below(1000)); if refm::bit_len(v) > 60 { break; } }
+            if let Some(v) = found { qs[pos] = v; family += "+composite_1mod2N_without_root"; }
+        }
+        _ => {}
+    }
+    let big_q = if qs.iter().any(|&q| q == 0) { BigU::zero() } else { refm::product(&qs) };
+    let t = if scheme == SchemeType::CKKS { 0 } else {
+        match rng.below(16) {
+            0 => { family += "+t_zero"; 0 }
+            1 => { family += "+t_equals_q0"; qs[0] }
+            2 => { family += "+t_shares_factor"; let f = factor(qs[pos]); if f.is_empty() { 6 } else if f[0] < 1 << 30 { f[0] * 2 } else { qs[pos] } }
+            3 => { family += "+t_61bit"; (1u64 << 60) | rng.bits(60) }
+            4 => { family += "+t_60bit"; (1u64 << 59) | rng.bits(59) | 1 }
+            5 => { family += "+t_ge_q"; if qs.len() == 1 && qs[0] < (1 << 59) { qs[0] + 1 + rng.below(5) } else { (1u64 << 59) + 1 } }
+            6 => { family += "+t_composite_batching"; match (random_prime(rng, m, refm::bit_len(m) as u32 + 1, &[]), random_prime(rng, m, refm::bit_len(m) as u32 + 2, &[])) { (Some(a), Some(b)) if refm::bit_len(a) + refm::bit_len(b) <= 60 => a * b, _ => 1 << 10 } }
+            7 | 8 => { family += "+t_pow2"; 1u64 << rng.range(1, 40) }
+            9 | 10 => { family += "+t_odd"; (rng.bits(30) | 1).max(3) }
+            _ => { family += "+t_batching"; let tb = rng.range((refm::bit_len(m) + 1).max(14) as u64, 40) as u32; random_prime(rng, m, tb, &qs).unwrap_or(65537) }
+        }
+    };
+    let _ = big_q;
+    RandomCfg { scheme, n, qs, t, sec, expand, special, family }
+}
+
+fn run_config(env: &Env, rep: &mut Report, r: &RandomCfg, second: bool) {
+    let mut infos = Infos::new();
+    for &v in r.qs.iter().chain([r.t].iter()) { infos.entry(v).or_insert_with(|| val_info(v)); }
+    let c = Cand { scheme: r.scheme, n: r.n, qs: Some(&r.qs), t: r.t, sec: r.sec, expand: r.expand, special: r.special };
+    rep.count("family", &format!("{}:{}", env.grp, r.family));
+    rep.count("degree", &format!("{}:{:06}", env.grp, r.n));
+    rep.count("moduli_count", &format!("{}:{:02}", env.grp, r.qs.len()));
+    let parms = match build(&c, 0, None) {
+        Ok(p) => p,
+        Err(p) => {
+            rep.count("builder", &format!("not_constructible:{}", p.0.split(" @ ").next().unwrap_or("").chars().take(60).collect::<String>()));
+            rep.count("builder_vs_prediction", if c.predicted_constructible() { "refused_but_predicted_constructible" } else { "refused_as_predicted" });
+            rep.out_of_precondition += 1;
+            return;
+        }
+    };
+    rep.count("builder", "constructible");
+    register_object(env, rep, &c, &parms);
+    let k = r.qs.len();
+    let verdicts: Vec<Verdict> = (0..=k).map(|len| level_verdict(r.scheme, r.n, &r.qs[..len], r.t, r.sec, &infos)).collect();
+    examine(env, rep, &c, &parms, &verdicts, &infos, second);
+}
+
+// ------------------------------------------------------------------------------------------ security-table boundary
+fn secbound_case(cfg: &Cfg, store: &IdStore, case: u64, rep: &mut Report) {
+    let env = Env { cfg, grp: "secbound", case, store, cache: None };
+    let mut i = case as usize;
+    let scheme = [SchemeType::BFV, SchemeType::CKKS, SchemeType::BGV][i % 3]; i /= 3;
+    let delta = (i % 3) as i64 - 1; i /= 3;
+    let sec = SECS[1 + i % 3]; i /= 3;
+    let n = STD_DEGREES[i % 6];
+    let m = 2 * n as u64;
+    let max = std_max_bits(n, sec).unwrap();
+    let target = (max as i64 + delta) as usize;
+    // sizes: as few moduli as possible, each the largest primes of its size so that the product has exactly `target` bits
+    let k = (target + 59) / 60;
+    let base = target / k; let extra = target % k;
+    let sizes: Vec<usize> = (0..k).map(|j| base + (j < extra) as usize).collect();
+    let mut qs: Vec<u64> = vec![];
+    for &b in &sizes {
+        let need = sizes.iter().filter(|&&x| x == b).count();
+        let cands = primes_down(m, b as u32, need);
+        if let Some(&p) = cands.iter().find(|p| !qs.contains(p)) { qs.push(p); }
+    }
+    if qs.len() != k { rep.count("secbound", &format!("unreachable:n={},{}bits", n, target)); rep.out_of_precondition += 1; return; }
+    let bits = refm::product(&qs).bits();
+    rep.count("secbound", &format!("{}:total_minus_max={:+}", sec_name(sec), bits as i64 - max as i64));
+    let t = if scheme == SchemeType::CKKS { 0 } else if bits <= 20 || qs.contains(&65537) { 2 } else { 65537 };
+    let r = RandomCfg { scheme, n, qs, t, sec, expand: false, special: false, family: format!("secbound_{:+}", bits as i64 - max as i64) };
+    run_config(&env, rep, &r, n <= 4096);
+}
+
+// ------------------------------------------------------------------------------------------ generators
+#[allow(deprecated)]
+fn generators_case(cfg: &Cfg, store: &IdStore, case: u64, rng: &mut Rng, rep: &mut Report) {
+    let env = Env { cfg, grp: "generators", case, store, cache: None };
+    let dummy = Cand { scheme: SchemeType::None, n: 0, qs: None, t: 0, sec: SecurityLevel::None, expand: false, special: false };
+    let valid_degrees: Vec<usize> = (1..=17).map(|e| 1usize << e).collect();
+    let nvd = valid_degrees.len() as u64;
+    if case < nvd {
+        // ---- every single size 2..=60 at this degree, create and batching
+        let n = valid_degrees[case as usize]; let m = 2 * n as u64;
+        for b in 2..=60usize {
+            let avail = count_primes(m, b as u32, 1);
+            for (op, res) in [("CoeffModulus::create", lib(|| CoeffModulus::create(n, vec![b]))), ("PlainModulus::batching", lib(|| vec![PlainModulus::batching(n, b)]))] {
+                rep.eval(Some(&format!("gen/{}/{}/{}", op, n, b)));
+                match res {
+                    Ok(out) => { check_generated(&env, rep, op, n, m, &[b], &out, &dummy); rep.min("smallest_generated_bits", b as f64); }
+                    Err(_) => { rep.count("generators", &format!("{}:refused:{}", op, match avail { Some(0) => "no_such_prime", Some(_) => "although_prime_exists", None => "not_enumerated" })); }
+                }
+            }
+        }
+        // bfv_default and max_bit_count at this degree
+        for &sec in &SECS {
+            let got = CoeffModulus::max_bit_count(n, sec);
+            rep.count("generators", "max_bit_count:checked");
+            let ok = match std_max_bits(n, sec) { None => got >= 64 * 60, Some(w) => got == w };
+            if !ok { env.viol(rep, "CoeffModulus::max_bit_count", &format!("sec={}", sec_name(sec)), "value", format!("max_bit_count({}, {}) = {}, the standard says {:?}", n, sec_name(sec), got, std_max_bits(n, sec)), &dummy); }
+            match lib(|| CoeffModulus::bfv_default(n, sec)) {
+                Err(_) => rep.count("generators", &format!("bfv_default:refused:{}", if std_max_bits(n, sec).unwrap_or(0) == 0 { "non_standard_input" } else { "STANDARD_INPUT" })),
+                Ok(out) => {
+                    let sizes: Vec<usize> = out.iter().map(|x| refm::bit_len(x.value())).collect();
+                    check_generated(&env, rep, "CoeffModulus::bfv_default", n, m, &sizes, &out, &dummy);
+                    let qs: Vec<u64> = out.iter().map(|x| x.value()).collect();
+                    let bits = refm::product(&qs).bits();
+                    let max = std_max_bits(n, sec).unwrap_or(0);
+                    rep.count("generators", &format!("bfv_default:{}:n={}:bits={}/{}", sec_name(sec), n, bits, max));
+                    if bits > max { env.viol(rep, "CoeffModulus::bfv_default", &format!("sec={}", sec_name(sec)), "value", format!("bfv_default({}, {}) has {} bits, the standard allows {}", n, sec_name(sec), bits, max), &dummy); }
+                    for scheme in [SchemeType::BFV, SchemeType::BGV] {
+                        let r = RandomCfg { scheme, n, qs: qs.clone(), t: 65537, sec, expand: n <= 8192, special: false, family: "bfv_default".into() };
+                        run_config(&env, rep, &r, n <= 4096);
+                    }
+                }
+            }
+        }
+        return;
+    }
+    let sub = case - nvd;
+    if sub == 0 {
+        // ---- refusals of Modulus::new, invalid degrees / sizes of the generators, max_bit_count off the table
+        for v in [1u64, 1 << 61, (1 << 61) + 1, u64::MAX] { rep.count("generators", &format!("Modulus::new({}):{}", if v == 1 { "1".to_string() } else { format!("{}bit", refm::bit_len(v)) }, if lib(|| Modulus::new(v)).is_err() { "refused" } else { "RETURNED" })); rep.eval(None); }
+        for v in [0u64, 2, (1 << 61) - 1] { rep.count("generators", &format!("Modulus::new({}bit):{}", refm::bit_len(v), if lib(|| Modulus::new(v)).is_ok() { "built" } else { "REFUSED" })); rep.eval(None); }
+        for n in [0usize, 1, 3, 6, 12, 1000, 1 << 18, 1 << 20] {
+            for &sec in &SECS {
+                let got = CoeffModulus::max_bit_count(n, sec);
+                let ok = match std_max_bits(n, sec) { None => got >= 64 * 60, Some(w) => got == w };
+                rep.count("generators", "max_bit_count:checked");
+                if !ok { env.viol(rep, "CoeffModulus::max_bit_count", &format!("sec={}", sec_name(sec)), "value", format!("max_bit_count({}, {}) = {}", n, sec_name(sec), got), &dummy); }
+            }
+            match lib(|| CoeffModulus::create(n, vec![30, 30])) {
+                Ok(out) => check_generated(&env, rep, "CoeffModulus::create", n, 2 * n as u64, &[30, 30], &out, &dummy),
+                Err(_) => rep.count("generators", "CoeffModulus::create:refused:invalid_degree"),
+            }
+            rep.eval(Some(&format!("gen/invalid_degree/{}", n)));
+        }
+        for sizes in [vec![], vec![0usize], vec![1], vec![61], vec![30, 61], vec![64], vec![30; 65]] {
+            match lib(|| CoeffModulus::create(64, sizes.clone())) {
+                Ok(out) => check_generated(&env, rep, "CoeffModulus::create", 64, 128, &sizes, &out, &dummy),
+                Err(_) => rep.count("generators", "CoeffModulus::create:refused:invalid_sizes"),
+            }
+            rep.eval(Some(&format!("gen/invalid_sizes/{}", sizes.len())));
+        }
+        return;
+    }
+    // ---- random size lists (repeated sizes force many distinct primes of one size)
+    let n = *rng.pick(&valid_degrees); let m = 2 * n as u64;
+    let lo = (refm::bit_len(m) + rng.below(3) as usize).clamp(2, 60);
+    let k = match rng.below(6) { 0 => 64, 1 => rng.range(20, 63), _ => rng.range(1, 12) } as usize;
+    let same = rng.chance(1, 3);
+    let b0 = rng.range(lo as u64, 60) as usize;
+    let sizes: Vec<usize> = (0..k).map(|_| if same { b0 } else { rng.range(lo as u64, 60) as usize }).collect();
+    let which = rng.below(3);
+    let (op, res, modulus) = match which {
+        0 => ("CoeffModulus::create", lib(|| CoeffModulus::create(n, sizes.clone())), m),
+        1 => ("PlainModulus::batching_multiple", lib(|| PlainModulus::batching_multiple(n, sizes.clone())), m),
+        _ => {
+            let t = *rng.pick(&[2u64, 3, 4, 17, 255, 256, 65537, 786433]);
+            let l = m / refm::gcd(m, t) * t;
+            rep.count("generators", &format!("create_with_plain_modulus:t={}", t));
+            let r = lib(|| CoeffModulus::create_with_plain_modulus(n, &Modulus::new(t), sizes.clone()));
+            if let Ok(out) = &r { if out.iter().any(|x| x.value() % l != 1) { rep.count("generators", "create_with_plain_modulus:not_1_mod_lcm(2N,t)"); } else { rep.count("generators", "create_with_plain_modulus:1_mod_lcm(2N,t)"); } }
+            ("CoeffModulus::create_with_plain_modulus", r, m)
+        }
+    };
+    rep.eval(Some(&format!("gen/{}/{}/{}", op, n, k.min(20))));
+    match res {
+        Err(_) => {
+            // feasible? count the primes of every requested size independently
+            let mut feasible = Some(true);
+            let mut need: HashMap<usize, usize> = HashMap::new();
+            for &b in &sizes { *need.entry(b).or_insert(0) += 1; }
+            for (&b, &c) in &need { match count_primes(m, b as u32, c) { Some(x) => if x < c { feasible = Some(false); }, None => if feasible == Some(true) { feasible = None; } } }
+            rep.count("generators", &format!("{}:refused:{}", op, match feasible { Some(false) => "not_enough_primes", Some(true) => if which == 2 { "primes_exist_mod_2N_only" } else { "ALTHOUGH_ENOUGH_PRIMES" }, None => "not_enumerated" }));
+        }
+        Ok(out) => {
+            check_generated(&env, rep, op, n, modulus, &sizes, &out, &dummy);
+            rep.max("largest_generated_list", out.len() as f64);
+            let qs: Vec<u64> = out.iter().map(|x| x.value()).collect();
+            if which != 2 && n * k * k <= 1 << 20 && qs.len() == k {
+                // the generated list is admissible by construction: the context must accept it
+                let scheme = *rng.pick(&[SchemeType::BFV, SchemeType::CKKS, SchemeType::BGV]);
+                let r = RandomCfg { scheme, n, qs, t: if scheme == SchemeType::CKKS { 0 } else { 2 }, sec: SecurityLevel::None, expand: true, special: rng.chance(1, 4), family: "generated_list".into() };
+                run_config(&env, rep, &r, n * k <= 1 << 12);
+            }
+        }
+    }
+}
+
+pub fn run(cfg: &Cfg, rep: &mut Report) -> PropMeta {
+    let u = Universe::new();
+    let store = IdStore::new();
+    let replay_grp = cfg.only_case.as_ref().map(|x| x.0.clone());
+    let want = |g: &str| replay_grp.as_deref().map(|x| x == g).unwrap_or(true);
+
+    // (1) exhaustive small universe
+    if want("universe") {
+        let n_cases = (u.n_lists() * u.degrees.len()) as u64;
+        run_cases(cfg, "universe", n_cases, rep, |i, _rng, rep| universe_case(cfg, &u, &store, i, rep));
+    }
+    // (2) random larger configurations + security table boundary
+    if want("random") {
+        let n = cfg.n(2500, 40_000) as u64;
+        run_cases(cfg, "random", n, rep, |i, rng, rep| {
+            let env = Env { cfg, grp: "random", case: i, store: &store, cache: None };
+            let r = gen_random(rng);
+            let cheap = r.n * r.qs.len() <= 1 << 14;
+            run_config(&env, rep, &r, cheap || i % 4 == 0);
+        });
+    }
+    if want("secbound") {
+        run_cases(cfg, "secbound", 6 * 3 * 3 * 3, rep, |i, _rng, rep| secbound_case(cfg, &store, i, rep));
+    }
+    // (3) generators
+    if want("generators") {
+        let n = 17 + 1 + cfg.n(400, 6000) as u64;
+        run_cases(cfg, "generators", n, rep, |i, rng, rep| generators_case(cfg, &store, i, rng, rep));
+    }
+    rep.max("distinct_parameter_objects_in_collision_check", store.len() as f64);
+    rep.note("use_special_prime_for_encryption is not part of the hashed words: two parameter objects that differ only in that flag share their id (documented word layout = scheme, N, q_i, t); the collision check identifies objects by those words");
+    rep.note("composite coefficient/plain moduli: the library looks for a primitive 2N-th root by a randomised search (rand::thread_rng, not the verif entropy hook) that assumes a prime modulus; outcomes for composite NTT-friendly moduli are counted in the composite_* tables");
+
+    let exhaustive = !cfg.quick() && cfg.only_case.is_none();
+    PropMeta {
+        id: "C13", level: "exploration",
+        rule: "universe (enumerated completely in the thorough tier; quick = every list of length <= 2 and a seed-dependent 1/8 of the lists of length 3): schemes {none,bfv,ckks,bgv} x degrees {0,1,2,3,4,6,8,16,1024,2^17,2^18} x coefficient lists {unset, empty, every ordered list with repetition of length 1..3 over {0,2,3,5,13,17,97,193,257,7681,12289,4,15,21,34,85, largest 60-bit prime = 1 mod 2^18, largest 61-bit prime = 1 mod 2^18}} x plain moduli {0,2,3,16,17,34,257,2^58, second largest 60-bit prime = 1 mod 2^18, 2^60+1} x security {none,128,192,256} x expand_mod_chain x use_special_prime flag; builder panics = not constructible (skipped). random: 1..64 moduli of 6..60 bits at N = 2..32768 around/over the security budget with injected duplicates, composites, non-NTT primes, 61-bit and zero moduli, all kinds of plain moduli. secbound: every (N, level) of the security table at max-1/max/max+1 total bits. generators: create/batching for every N = 2..2^17 x every size 2..60, random size lists up to 64 entries, bfv_default and max_bit_count for every N x level. distinct = distinct (scheme, outcome, reason / chain length, flags) classes",
+        assumptions: vec![
+            "reference security table (27/54/109/218/438/881, 19/37/75/152/305/611, 14/29/58/118/237/476 bits for N = 1024..32768) transcribed by hand from the HomomorphicEncryption.org standard (ternary secret, classical), not read from the library".into(),
+            "parameter id layout of DESIGN.md appendix A: SHA-256 (sha2 crate) over little-endian u64 words [scheme, N, q_1..q_k, t]".into(),
+            "harness BigU / u128 arithmetic, refm::is_prime (deterministic Miller-Rabin), Pollard-rho factorisation written in this file".into(),
+            "documented limits: degree 2..2^17, 1..64 moduli of 2..60 bits, plain modulus 2..60 bits; the meaning of each error code is its doc comment in encryption_parameters.rs".into(),
+            "a rejection must carry an error code whose documented meaning is true of the input (so admissible all-prime inputs must be accepted); for composite moduli that admit a 2N-th root the library's randomised root search may fail: such rejections / missing batching are counted, not reported".into(),
+            "builder panics (Modulus::new on 1 or > 61 bits, empty list, scheme none with anything set, CKKS with a plain modulus) are the documented refusals and are skipped".into(),
+            "second independent context is built in-process with another setter order and fresh Modulus objects; no child process".into(),
+        ],
+        exhaustive, floor: if cfg.only_case.is_some() { 1 } else { 50_000 },
+    }
 }
